@@ -83,15 +83,26 @@ def gen_case(rng, tier, pid, n):
     forced = []
     if want_cool:
         byname = {s.name: s for s in pool}
-        forced = [byname[x] for x in rng.sample(["H", "He", "He+", "He++", "H+"], rng.randint(1, 5))]
+        forced = [byname[x] for x in rng.sample(["H", "He", "He+", "He++", "H+", "H2"], rng.randint(1, 6))]
     if n > 1 and rng.random() < 0.15:
         # two species whose names differ by letter case only (para-H2 / phosphino, para-H3+ / phosphonium)
         byname = {s.name: s for s in pool}
         forced = forced + [byname[x] for x in rng.choice([["pH2", "PH2", "H", "PH"], ["pH3+", "PH3+", "H2", "PH2+"], ["pH2", "PH2", "PH2+", "H+"]])
                            if x in byname and byname[x] not in forced]
         nsp, nre = max(nsp, 5), max(nre, 8)
+    config = "default"
+    if pid in ("C01", "C02", "C03", "C13") and n > 1 and rng.random() < 0.2:
+        config = "third-body-species"
+        forced = forced + [netgen.mk([("M", 1)])]
+    elif n > 1 and rng.random() < 0.15:
+        config = "isotopes"
+        iso = [netgen.mk([("13C", 1)]), netgen.mk([("13C", 1), ("O", 1)]), netgen.mk([("13C", 1), ("O", 1)], ice=True),
+               netgen.mk([("C", 1), ("O", 1)], ice=True), netgen.mk([("13C", 1)], 1), netgen.mk([("H", 2), ("13C", 1), ("O", 1)])]
+        pool = pool + iso
+        forced = forced + [x for x in iso[:4] if x not in forced] + [s for s in pool if s.name in ("CO", "C", "O")]
+        nsp, nre = max(nsp, 4), max(nre, 8)
     sub, reacs = netgen.random_network(rng, pool, nsp, nre, electron_spellings=espell, indexed=indexed,
-                                       forced=forced)
+                                       forced=forced, third_body=(config == "default"))
     if pid == "C04":
         reacs = balanced_reactions(rng, sub, nre)
     used = {s.key for r in reacs for s in r.re + r.pr}
@@ -105,6 +116,9 @@ def gen_case(rng, tier, pid, n):
     if want_cool:
         cooling = rng.sample(["CIC_HI", "CIC_HeI", "CIC_HeII", "CIC_He_2S", "RC_HII", "RC_HeI", "RC_HeII",
                               "RC_HeIII", "CEC_HI", "CEC_HeI", "CEC_HeII"], rng.randint(1, 4))
+    heating = []
+    if want_cool and rng.random() < 0.6:
+        heating = rng.sample(list(HEATING_REACTANTS), rng.randint(1, 3))
     mods = []
     if pid in ("C02", "C13") and sub and rng.random() < 0.7:
         present = [s for s in sub if s.key in used or s in required]
@@ -145,7 +159,7 @@ def gen_case(rng, tier, pid, n):
         if shared is not None and rng.random() < 0.8:
             ratemod[shared] = rng.choice(["3.0e-10", "2.0 * zeta"])
     return {"species": sub, "reacs": reacs, "required": required, "entry": entry, "cooling": cooling,
-            "mods": mods, "ratemod": ratemod, "indexed": indexed}
+            "mods": mods, "ratemod": ratemod, "indexed": indexed, "config": config, "heating": heating}
 
 
 def balanced_reactions(rng, sub, nre):
@@ -206,7 +220,7 @@ def balanced_reactions(rng, sub, nre):
 
 
 def case_sig(case, backend=None):
-    return json.dumps([[r.sig() for r in case["reacs"]], [s.key for s in case["required"]], case["cooling"],
+    return json.dumps([[r.sig() for r in case["reacs"]], [s.key for s in case["required"]], case["cooling"], case.get("heating", []),
                        [(t.key, [(f, [d.key for d in ds]) for f, ds in terms]) for t, terms in case["mods"]],
                        sorted(map(str, case["ratemod"].items())), backend], default=str)
 
@@ -217,7 +231,7 @@ def case_summary(case):
                       for r in case["reacs"][:8]],
         "n_reactions": len(case["reacs"]),
         "required": [s.name for s in case["required"]],
-        "entry": case["entry"], "cooling": case["cooling"],
+        "entry": case["entry"], "cooling": case["cooling"], "heating": case.get("heating", []),
         "ode_modifier": [(t.name, [(f, [d.name for d in ds]) for f, ds in terms]) for t, terms in case["mods"]],
         "rate_modifier": {str(k): v for k, v in case["ratemod"].items()},
     }
@@ -226,12 +240,26 @@ def case_summary(case):
 # ------------------------------------------------------------------------------------ implementation
 
 
-def reset_species_state():
+def config_lists(config="default"):
+    """element / pseudo-element lists of a project.  In "third-body-species" the symbol M is a species of the network (an
+    element of the user's list) instead of the third-body marker it is by default: what a name means is decided per project."""
+    if config == "third-body-species":
+        return list(DEFAULT_ELEMENTS) + ["M"], [p for p in DEFAULT_PSEUDO if p != "M"]
+    if config == "isotopes":      # an isotope as an element of its own: a symbol that starts with digits
+        return list(DEFAULT_ELEMENTS) + ["13C"], list(DEFAULT_PSEUDO)
+    return list(DEFAULT_ELEMENTS), list(DEFAULT_PSEUDO)
+
+
+def reset_species_state(config="default"):
     from naunet.species import Species
     from naunet import chemistrydata
     Species.reset()
-    Species.set_known_elements(list(DEFAULT_ELEMENTS))
-    Species.set_known_pseudoelements(list(DEFAULT_PSEUDO))
+    el, ps = config_lists(config)
+    Species.set_known_elements(el)
+    Species.set_known_pseudoelements(ps)
+    chemistrydata.user_binding_energy.clear()
+    if config == "isotopes":
+        chemistrydata.update_binding_energy({"#13CO": 1150.0, "#13CH4": 1090.0})
 
 
 def build_network(case, scratch: Path, with_mods=True, with_ratemod=True):
@@ -239,10 +267,13 @@ def build_network(case, scratch: Path, with_mods=True, with_ratemod=True):
     from naunet.reactions import Reaction
     from naunet.reactiontype import ReactionType as RT
 
-    reset_species_state()
+    reset_species_state(case.get("config", "default"))
     reacs = case["reacs"]
-    kw = dict(elements=list(DEFAULT_ELEMENTS), pseudo_elements=list(DEFAULT_PSEUDO),
-              required_species=[s.name for s in case["required"]], cooling=list(case["cooling"]))
+    el, ps = config_lists(case.get("config", "default"))
+    install_heating()
+    kw = dict(elements=el, pseudo_elements=ps,
+              required_species=[s.name for s in case["required"]], cooling=list(case["cooling"]),
+              heating=list(case.get("heating", [])))
     if with_mods and case["mods"]:
         kw["ode_modifier"] = {t.name: {"factors": [f for f, _ in terms], "reactants": [[d.name for d in ds] for _, ds in terms]}
                               for t, terms in case["mods"]}
@@ -388,7 +419,31 @@ COOLING_REACTANTS = {
     "CEC_HI": ["H", "e-"], "CEC_HeI": ["He+", "e-"], "CEC_HeII": ["He+", "e-"],
 }
 
-COOL_KEYS = {"H": "gas:H:0", "e-": "electron", "He": "gas:He:0", "He+": "gas:He:1", "He++": "gas:He:2", "H+": "gas:H:1"}
+COOL_KEYS = {"H": "gas:H:0", "e-": "electron", "He": "gas:He:0", "He+": "gas:He:1", "He++": "gas:He:2", "H+": "gas:H:1",
+             "H2": "gas:H2:0"}
+# The package ships no heating process (`get_allowed_heating` returns {}), yet the generator carries heating terms through the
+# temperature equation, the Jacobian and the layouts.  The harness registers processes of its own through that very lookup
+# function, so that those branches are exercised by networks built through the public constructor.
+HEATING_REACTANTS = {"VERIF_HEAT_H2": ["H2"], "VERIF_HEAT_HHp": ["H", "H+"], "VERIF_HEAT_Hee": ["H", "e-", "e-"], "VERIF_HEAT_He": ["He"]}
+
+
+def install_heating():
+    import naunet.network as nn
+    from naunet.thermalprocess import ThermalProcess
+    if getattr(nn.get_allowed_heating, "_verif", False):
+        return
+    procs = {}
+
+    def allowed(species):
+        out = {}
+        for name, rs in HEATING_REACTANTS.items():
+            if name not in procs:
+                procs[name] = ThermalProcess(list(rs), "1.0e-27 * sqrt(Temp)")
+            if all(r in species for r in procs[name].reactants):
+                out[name] = procs[name]
+        return out
+    allowed._verif = True
+    nn.get_allowed_heating = allowed
 
 
 def allowed_cooling(case):
@@ -396,8 +451,18 @@ def allowed_cooling(case):
     return [c for c, rs in COOLING_REACTANTS.items() if all(COOL_KEYS[r] in present for r in rs)]
 
 
+def allowed_heating(case):
+    present = {s.key for r in case["reacs"] for s in r.re + r.pr} | {s.key for s in case["required"]}
+    return [h for h, rs in HEATING_REACTANTS.items() if all(COOL_KEYS[r] in present for r in rs)]
+
+
 def expected_thermal(case, names):
     inner = Poly()
+    for h, name in enumerate(case.get("heating", [])):
+        m = Poly.atom(f"kh[{h}]")
+        for r in HEATING_REACTANTS[name]:
+            m = m * Poly.atom(f"y[{names[COOL_KEYS[r]]}]")
+        inner = inner + m
     for c, name in enumerate(case["cooling"]):
         m = Poly.atom(f"kc[{c}]")
         for r in COOLING_REACTANTS[name]:
@@ -465,6 +530,8 @@ def run(pid: str, argv):
         case = gen_case(chk.rng, tier, pid, n)
         ok_cool = allowed_cooling(case)
         case["cooling"] = [c for c in case["cooling"] if c in ok_cool]
+        ok_heat = allowed_heating(case)
+        case["heating"] = [h for h in case.get("heating", []) if h in ok_heat]
         backends = all_b if (pid == "C03" or tier == "thorough") else [all_b[n % 4], all_b[(n + 1) % 4]]
         try:
             net, rds = evaluate_case(chk, case, backends, n, want_pattern=(pid == "C03"))
@@ -475,7 +542,9 @@ def run(pid: str, argv):
             continue
         chk.hist[f"entry:{case['entry']}"] += 1
         chk.hist[f"nreac:{min(len(case['reacs']) // 10 * 10, 100)}+"] += 1
-        chk.hist["thermal" if case["cooling"] else "no-thermal"] += 1
+        chk.hist["thermal" if (case["cooling"] or case.get("heating")) else "no-thermal"] += 1
+        if case.get("heating"):
+            chk.hist["with-heating"] += 1
         chk.sample(case_summary(case), limit=4)
         try:
             req = stage_input(net, case)
@@ -541,7 +610,10 @@ def run(pid: str, argv):
                     d["rate_modifier"]["3"] = "2.0 * zeta"
                 if len(descs) == 0:
                     d["rate_modifier"]["1"] = 0.0          # a reaction switched off with a number, always
-                d["ode_modifier"] = {chk.rng.choice(["H2", "CO"]): {"factors": ["1e-3", "-2.0*k[0]"], "reactants": [["H"], ["CO", "He"]]}}
+                d["ode_modifier"] = {chk.rng.choice(["H2", "CO"]): {"factors": ["1e-3", "-2.0*k[0]"],
+                                                                  "reactants": [["H"], chk.rng.choice([["CO", "He"], ["He++", "e-"], ["He+", "C+"]])]}}
+                if len(descs) == 0:
+                    d["ode_modifier"] = {"H2": {"factors": ["1e-3", "-2.0*k[0]"], "reactants": [["H"], ["He++", "e-"]]}}
                 d.pop("ode_modifier_terms", None)
                 d["ode_modifier_cuts"] = [1] if chk.rng.random() < 0.5 else []    # one or two occurrences of the option
             else:
@@ -661,7 +733,7 @@ def oracle_c01(chk, case, net, rd, rds):
                           expected=p.canon(), observed=got.canon(), point=pt,
                           difference_at_point=str(diff.eval(pt)) if pt else None)
             return
-    if case["cooling"]:
+    if case["cooling"] or case.get("heating"):
         got = fx.get(rd.nspec)
         want = expected_thermal(case, names)
         if got != want:
